@@ -24,10 +24,31 @@ def call(pts, tol, mode):
     t2 = tol * tol
     e = {"ev": mode, "pts": [list(p) for p in pts], "t2": [t2.numerator, t2.denominator], "tol": str(tol), "raised": False, "out": []}
     t0 = ObsTime(2020, 6, 15, 12, 0, 0).toAbsTime()
-    tr = Track([Obs(ENUCoords(float(p[0]), float(p[1]), float(k + 1)), ObsTime.readUnixTime(t0 + k)) for k, p in enumerate(pts)])
+    # history (every other call): the track OBJECT was simplified before, with the same mode and tolerance, when its fixes
+    # were elsewhere (mirrored); they were then moved in place - same number of fixes - and the first result was trimmed by
+    # the caller.  The answer is defined by the track as it stands at the time of the call.
+    hist = (len(pts) + int(sum(p[0] + 2 * p[1] for p in pts)) + (1 if mode == "dp" else 0)) % 2 == 0
+    md = MODE_SIMPLIFY_DOUGLAS_PEUCKER if mode == "dp" else MODE_SIMPLIFY_VISVALINGAM
+    if hist:
+        e["hist"] = "simplified before, fixes then moved in place"
+        tr = Track([Obs(ENUCoords(float(9 - p[1]), float(p[0] * (-1) ** k), float(k + 1)), ObsTime.readUnixTime(t0 + k)) for k, p in enumerate(pts)])
+        try:
+            with core.quiet():
+                first = simplify(tr, float(tol), md)
+                if first is not None and first.size() > 1 and len(pts) > 2:
+                    first.removeObs(0)
+        except (Exception, SystemExit):
+            pass
+        if tr.size() != len(pts):        # (the result of a tiny track may share its list with the input: start again)
+            tr = Track([Obs(ENUCoords(0.0, 0.0, float(k + 1)), ObsTime.readUnixTime(t0 + k)) for k, p in enumerate(pts)])
+        for k, p in enumerate(pts):
+            tr.getObs(k).position.setX(float(p[0]))
+            tr.getObs(k).position.setY(float(p[1]))
+    else:
+        tr = Track([Obs(ENUCoords(float(p[0]), float(p[1]), float(k + 1)), ObsTime.readUnixTime(t0 + k)) for k, p in enumerate(pts)])
     try:
         with core.quiet():
-            out = simplify(tr, float(tol), MODE_SIMPLIFY_DOUGLAS_PEUCKER if mode == "dp" else MODE_SIMPLIFY_VISVALINGAM)
+            out = simplify(tr, float(tol), md)
         kept = []
         for k in range(out.size()):
             o = out.getObs(k)
